@@ -47,14 +47,14 @@ proof_h! {
     }
 }
 
-//@ tier=quick timeout=1500 mem=12 bits=600 unwind=6 unwindset="hashmodel=520;eq32=33;memcmp=34" fns=warp_core::snapshot::compute_emissions_digest
-//@ bounds="two one-channel reports; ids fully symbolic; data lengths (1,1), (1,2), (2,2), (0,1) with symbolic bytes"
-//@ desc="emissions digest binds channel id, data length and data bytes: equal digests <=> equal id, length and bytes"
+//@ also=C05 tier=quick timeout=1500 mem=12 bits=600 unwind=7 unwindset="hashmodel=520;eq32=33;memcmp=34" fns=warp_core::snapshot::compute_emissions_digest
+//@ bounds="two one-channel reports; ids fully symbolic; data lengths (1,1), (1,2), (2,2), (0,1), (0,0) with symbolic bytes"
+//@ desc="emissions digest (bound into the tick commit id) binds channel id, data length and data bytes, also for channels that finalized with no bytes: equal digests <=> equal id, length and bytes"
 proof_h! {
     fn c18_emissions_digest_binds_channel_and_data() {
-        const L: [(usize, usize); 4] = [(1, 1), (1, 2), (2, 2), (0, 1)];
+        const L: [(usize, usize); 5] = [(1, 1), (1, 2), (2, 2), (0, 1), (0, 0)];
         let mut k = 0;
-        while k < 4 {
+        while k < 5 {
             #[cfg(kani)]
             crate::hashmodel::reset();
             let (a, b) = (chan(L[k].0), chan(L[k].1));
